@@ -1265,6 +1265,12 @@ class Explorer:
                 wslot(j, ite(k == I(j), val, slot(j)))
             pst.set_flag("indexerror-manager-list", z3.Or(k < I(0), k >= ln))
             pass
+        elif name == "iter":
+            # iteration over the proxy, modelled as ONE atomic snapshot of the list (used by flush(), which requires that no
+            # other process uses the storage)
+            st.pop()
+            snap = SList(L.cap, ln, [slot(j) for j in range(L.cap)], L.elem)
+            st.append(ListIter(snap, 0))
         elif name == "setslice":
             sl, val = args
             if not (sl.start is None and sl.stop is None and sl.step is None and isinstance(val, SList) and isinstance(val.length, int) and val.length == 0):
@@ -1303,13 +1309,15 @@ class Explorer:
         me = w.thread_order.index(th.name)
         if name == "print" and not kwargs.get("flush"):
             name = "write"
-        self.visible(ts, pst, "%s.%s" % (D.name, name), prim=D)
+        if name != "count_existing":  # harness observation made when no other process is running: not a step
+            self.visible(ts, pst, "%s.%s" % (D.name, name), prim=D)
         k = as_bv(h)
         NF, ML = D.nfiles, D.maxlines
         for f in range(NF):
             w.declare("%s.n.%d:i" % (D.name, f), "i", 0)
             w.declare("%s.pend.%d:i" % (D.name, f), "i", 0)
             w.declare("%s.writer.%d:i" % (D.name, f), "i", -1)
+            w.declare("%s.exists.%d:b" % (D.name, f), "b", False)
             w.declare("%s.rp.%d.%d:i" % (D.name, me, f), "i", 0)
             for j in range(ML):
                 w.declare("%s.c.%d.%d:i" % (D.name, f, j), "i", 0)
@@ -1354,6 +1362,10 @@ class Explorer:
                 for f in range(NF):
                     wv = "%s.writer.%d:i" % (D.name, f)
                     pst.write(wv, "i", z3.If(k == I(f), I(me), pst.read(wv, "i")))
+                    ev = "%s.exists.%d:b" % (D.name, f)
+                    pst.write(ev, "b", z3.Or(k == I(f), pst.read(ev, "b")))
+            else:
+                pst.set_flag("filenotfounderror-open-for-reading", z3.Not(sel(lambda f: pst.read("%s.exists.%d:b" % (D.name, f), "b"))))
             st.append(h)
         elif name == "tell":
             st.append(sel(lambda f: pst.read(nvar(f), "i") + pst.read(pvar(f), "i")))
@@ -1372,6 +1384,19 @@ class Explorer:
         elif name == "flush":
             do_flush()
             st.append(None)
+        elif name == "remove":
+            pst.set_flag("filenotfounderror-remove", z3.Not(sel(lambda f: pst.read("%s.exists.%d:b" % (D.name, f), "b"))))
+            for f in range(NF):
+                ev = "%s.exists.%d:b" % (D.name, f)
+                pst.write(ev, "b", z3.And(k != I(f), pst.read(ev, "b")))
+                pst.write(nvar(f), "i", z3.If(k == I(f), I(0), pst.read(nvar(f), "i")))
+                pst.write(pvar(f), "i", z3.If(k == I(f), I(0), pst.read(pvar(f), "i")))
+            st.append(None)
+        elif name == "count_existing":
+            n = I(0)
+            for f in range(NF):
+                n = n + z3.If(pst.read("%s.exists.%d:b" % (D.name, f), "b"), I(1), I(0))
+            st.append(z3.simplify(n))
         elif name == "seek":
             off = as_bv(args[0])
             for f in range(NF):
@@ -1618,6 +1643,8 @@ class Explorer:
         if func is _mp.parent_process:
             st.append(None)  # the modelled processes are plain fork() children: multiprocessing's bookkeeping knows nothing about them
             return None
+        if func is _os.remove and self.w.storage_files is not None and args and is_symint(args[0]):
+            return self.storage_file_op(ts, pst, th, "remove", args[0], args[1:], kwargs)
         if func is _os.getpid:
             st.append(self.w.thread_order.index(th.name))  # one process per modelled thread of control
             return None
@@ -2286,6 +2313,15 @@ class Explorer:
                 return None
         raise VMError("item assignment on %r" % (c,))
 
+    def op_STORE_SLICE(self, ts, pst, th, f, ins, st):
+        end = st.pop()
+        start = st.pop()
+        c = st.pop()
+        v = st.pop()
+        if isinstance(c, prims.SimManagerList) and start is None and end is None:
+            return self.mlist_op(ts, pst, th, c, "setslice", [slice(None, None, None), v])
+        raise VMError("slice assignment on %r" % (c,))
+
     def op_DELETE_SUBSCR(self, ts, pst, th, f, ins, st):
         k = st.pop()
         c = st.pop()
@@ -2341,6 +2377,13 @@ class Explorer:
         if isinstance(v, SOpt):
             pst.set_flag("typeerror-None-iterated", v.is_none)
             v = v.payload
+        if isinstance(v, prims.SimManagerList):
+            st.append(v)
+            try:
+                r = self.mlist_op(ts, pst, th, v, "iter", [])
+            finally:
+                pass
+            return r
         if not isinstance(v, (RangeIter, ListIter, EnumIter, ZipIter, InputIter, GenObj, SList, tuple, list, range)):
             it = getattr(type(v), "__iter__", None)
             if isinstance(it, types.FunctionType) and self.w.is_inline(it):
